@@ -53,6 +53,15 @@ func (m *c01mon) observeT(s *sim, t int, where string) {
 	m.lastT = t
 }
 
+func (m *c01mon) resetInStep(s *sim, st rig.StepResult) bool {
+	for _, e := range s.r.Entries(st) {
+		if e.Kind == "store.Reset" || e.Kind == "store.SetNextTarget" {
+			return true
+		}
+	}
+	return false
+}
+
 func (m *c01mon) after(s *sim, st rig.StepResult, ctx stepCtx) {
 	c := s.c
 	delivered := 0
@@ -90,6 +99,14 @@ func (m *c01mon) after(s *sim, st rig.StepResult, ctx stepCtx) {
 		}
 	}
 	m.observeT(s, s.r.T(), "after the step")
+	// a message above the expected number cannot be the one that is consumed: on its arrival the
+	// expected number stays where it is (SequenceReset and Logon have rules of their own)
+	if ctx.kind == "in" && ctx.hasSeq && ctx.seq > ctx.tBefore && ctx.msgType != "4" && ctx.msgType != "A" && !m.resetInStep(s, st) {
+		if T := s.r.T(); T != ctx.tBefore {
+			vk.Violation(s.t, c, "C01/expected-number-advanced-by-a-message-above-it", "a %s message with MsgSeqNum %d arrived in state %s while %d was expected; afterwards %d is expected\n%s", ctx.msgType, ctx.seq, ctx.stateBefore, ctx.tBefore, T, s.history())
+		}
+		m.feat["message-above-expected:"+ctx.stateBefore] = true
+	}
 	// positive half: an in-sequence, well-formed application message in a logged-on state is delivered in this very step
 	if ctx.kind == "in" && ctx.hasSeq && ctx.loggedOnBefore && !fixwire.IsAdminMsgType(ctx.msgType) && ctx.seq == ctx.tBefore && ctx.wellFormed {
 		n := 0
